@@ -870,6 +870,56 @@ theorem run_inert (s : Str) : ∀ (f : Frame) (fs : List Frame), escMode (f :: f
     simp only [run, step_text_plain hm h0 hr ha hl, pushStrKids]
     exact ih _ fs hm' (by simpa [titleInert] using hcs)
 
+/-- a component name (program text) that needs no escaping inside `="…"` -/
+def compOK (c : Str) : Bool :=
+  c.all (fun ch => ch != '&' && ch != '<' && ch != '>' && ch != '"' && ch != cNul && ch != cCr)
+
+theorem escapeAttr_of_compOK (c : Str) (h : compOK c = true) : escapeAttr c = c := by
+  induction c with
+  | nil => rfl
+  | cons ch cs ih =>
+    simp only [compOK, List.all_cons, Bool.and_eq_true, bne_iff_ne, ne_eq] at h
+    obtain ⟨⟨⟨⟨⟨⟨ha, hl⟩, hg⟩, hq⟩, _⟩, _⟩, hcs⟩ := h
+    have ih' := ih (by simpa [compOK] using hcs)
+    simp only [escapeAttr] at ih' ⊢
+    have e : entityOf attrTable ch = [ch] := by simp [entityOf, attrTable, assoc, ha, hl, hg, hq]
+    simp only [escapeWith, e, ih']
+    rfl
+
+theorem clean_of_compOK (c : Str) (h : compOK c = true) : clean c = true := by
+  simp only [compOK, clean, List.all_eq_true, Bool.and_eq_true, bne_iff_ne, ne_eq] at h ⊢
+  intro x hx
+  exact ⟨(h x hx).1.2, (h x hx).2⟩
+
+/-- the island's hand-written attributes as ordinary plain attributes -/
+def islandAttrsA (c p : Str) : List Attr :=
+  .plain sDataComponent c :: (if p = [] then [] else [.plain sDataProps p])
+
+theorem islandOpen_eq (c p : Str) (h : compOK c = true) :
+    islandOpen c p = '<' :: tIsland ++ attrsHtml (islandAttrsA c p) ++ ['>'] := by
+  by_cases hp : p = []
+  · simp [islandOpen, islandAttrsA, hp, attrsHtml, plainPart, classBuf, styleBuf, escapeAttr_of_compOK c h]
+  · simp [islandOpen, islandAttrsA, hp, attrsHtml, plainPart, classBuf, styleBuf, escapeAttr_of_compOK c h]
+
+theorem islandAttrs_eq (c p : Str) : expectedAttrs (islandAttrsA c p) = islandAttrs c p := by
+  by_cases hp : p = [] <;> simp [islandAttrsA, islandAttrs, hp, expectedAttrs, plainFlat, classBuf, styleBuf]
+
+theorem islandAttrsOK (c p : Str) (hc : compOK c = true) (hp : clean p = true) :
+    attrsOK (islandAttrsA c p) = true := by
+  have h1 : attrNameOK sDataComponent = true := by decide
+  have h2 : attrNameOK sDataProps = true := by decide
+  have hcc := clean_of_compOK c hc
+  by_cases hpe : p = []
+  · simp [attrsOK, islandAttrsA, hpe, attrClean, h1, hcc, expectedAttrs, plainFlat, classBuf, styleBuf]
+  · simp [attrsOK, islandAttrsA, hpe, attrClean, h1, h2, hcc, hp, expectedAttrs, plainFlat, classBuf, styleBuf]
+    decide
+
+theorem nestOK_custom (t : Str) (anc : List Str) (h1 : pClosers.contains t = false) (h2 : t ≠ tA)
+    (h3 : t ≠ tButton) (h4 : headings.contains t = false) : nestOK t anc = true := by
+  unfold nestOK
+  rw [h1, h4]
+  simp [h2, h3]
+
 def vTitleKids : List VNode → Bool
   | [.text s] => clean s
   | _ => false
@@ -893,6 +943,8 @@ theorem vBlank_facts : (n : VNode) → ∀ (esc : Bool) (pos : Pos), vBlank esc 
   | .text _, _, _, h => by simp [vBlank] at h
   | .prim _, _, _, h => by simp [vBlank] at h
   | .elem .., _, _, h => by simp [vBlank] at h
+  | .island .., _, _, h => by simp [vBlank] at h
+  | .islandChildren _, _, _, h => by simp [vBlank] at h
   | .seq ks, esc, pos, h => by
     have := vBlankKids_facts ks esc pos (by simpa [vBlank] using h)
     simpa [vHtml, vPos, vRawText, vStruct] using this
@@ -935,24 +987,26 @@ def vwfNode (anc : List Str) : VNode → Bool
   | .seq ks => vwfKids anc ks
   | .vec ks => vwfKids anc ks
   | .unit => true
+  | .island c p ks => compOK c && clean p && vwfKids (tIsland :: anc) ks
+  | .islandChildren ks => vwfKids (tIslandChildren :: anc) ks
 def vwfKids (anc : List Str) : List VNode → Bool
   | [] => true
   | n :: ns => vwfNode anc n && vwfKids anc ns
 end
 
-theorem headIsText_false_of {pos : Pos} {k : List Tree} (hp : pos = .afterText ↔ headIsText k = true)
+theorem headIsText_false_of {pos : Pos} {k : List Tree} (hp : headIsText k = true → pos = .afterText)
     (ha : ¬ pos = .afterText) : headIsText k = false := by
   cases h : headIsText k with
   | false => rfl
-  | true => exact absurd (hp.mpr h) ha
+  | true => exact absurd (hp h) ha
 
 mutual
 theorem run_vnode : (n : VNode) → ∀ (f : Frame) (fs : List Frame) (pos : Pos),
     vwfNode ((f :: fs).map (·.tag)) n = true → modeOfTag f.tag = .data →
-    (pos = .afterText ↔ headIsText f.kidsRev = true) →
+    (headIsText f.kidsRev = true → pos = .afterText) →
     run ⟨.text, f :: fs⟩ (vHtml true pos n) =
       some ⟨.text, { f with kidsRev := (vStruct pos n).reverse ++ f.kidsRev } :: fs⟩ ∧
-    (vPos true pos n = .afterText ↔ headIsText ((vStruct pos n).reverse ++ f.kidsRev) = true)
+    (headIsText ((vStruct pos n).reverse ++ f.kidsRev) = true → vPos true pos n = .afterText)
   | .text s, f, fs, pos, hw, hm, hp => by
     have hs : clean s = true := by simpa [vwfNode] using hw
     have hm' : curMode (f :: fs) = .data := hm
@@ -1079,12 +1133,65 @@ theorem run_vnode : (n : VNode) → ∀ (f : Frame) (fs : List Frame) (pos : Pos
     simp only [vHtml, markerIf, if_true, vStruct]
     rw [run_marker (f := f) (fs := fs) hm]
     simp
+  | .island c p ks, f, fs, pos, hw, hm, _ => by
+    -- the hand-written open tag is an ordinary start tag with two plain attributes
+    have hm' : curMode (f :: fs) = .data := hm
+    refine ⟨?_, by simp [vStruct, headIsText]⟩
+    simp only [vwfNode, Bool.and_eq_true] at hw
+    obtain ⟨⟨hc, hp⟩, hkids⟩ := hw
+    have hopen := run_startTag (st := f :: fs) (tag := tIsland) (attrs := islandAttrsA c p) hm'
+      (by decide) (islandAttrsOK c p hc hp)
+    have hnest : nestOK tIsland (f.tag :: List.map (fun x => x.tag) fs) = true :=
+      nestOK_custom _ _ (by decide) (by decide) (by decide) (by decide)
+    have hstart : emitStart ⟨tIsland, expectedAttrs (islandAttrsA c p)⟩ false (f :: fs) =
+        some ⟨.text, ⟨tIsland, islandAttrs c p, []⟩ :: f :: fs⟩ := by
+      simp only [emitStart]
+      simp [hnest, show kind tIsland = .generic from by decide, show tIsland ≠ tTextarea from by decide,
+        islandAttrs_eq]
+    have hmk : modeOfTag tIsland = .data := by decide
+    have ih := (run_vkids ks ⟨tIsland, islandAttrs c p, []⟩ (f :: fs) pos hkids hmk (by simp [headIsText])).1
+    have hclose : run ⟨.text, ⟨tIsland, islandAttrs c p, (vStructKids pos ks).reverse ++ []⟩ :: f :: fs⟩
+        ('<' :: '/' :: tIsland ++ ['>']) =
+        some ⟨.text, { f with kidsRev := .elem tIsland (islandAttrs c p) (vStructKids pos ks) :: f.kidsRev } :: fs⟩ := by
+      rw [run_endTag (by exact hmk) (by decide)]
+      simp [emitEnd]
+    have e : vHtml true pos (.island c p ks) =
+        ('<' :: tIsland ++ attrsHtml (islandAttrsA c p) ++ ['>']) ++
+          (vKidsHtml true pos ks ++ ('<' :: '/' :: tIsland ++ ['>'])) := by
+      simp [vHtml, islandOpen_eq c p hc]
+    rw [e, run_append, hopen, hstart, Option.bind_some, run_append, ih, Option.bind_some, hclose]
+    simp [vStruct]
+  | .islandChildren ks, f, fs, pos, hw, hm, _ => by
+    have hm' : curMode (f :: fs) = .data := hm
+    refine ⟨?_, by simp [vStruct, headIsText]⟩
+    have hkids : vwfKids (tIslandChildren :: (f :: fs).map (·.tag)) ks = true := by simpa [vwfNode] using hw
+    have hopen := run_startTag (st := f :: fs) (tag := tIslandChildren) (attrs := []) hm' (by decide) (by decide)
+    have hnest : nestOK tIslandChildren (f.tag :: List.map (fun x => x.tag) fs) = true :=
+      nestOK_custom _ _ (by decide) (by decide) (by decide) (by decide)
+    have hstart : emitStart ⟨tIslandChildren, expectedAttrs []⟩ false (f :: fs) =
+        some ⟨.text, ⟨tIslandChildren, [], []⟩ :: f :: fs⟩ := by
+      simp only [emitStart]
+      simp [hnest, show kind tIslandChildren = .generic from by decide,
+        show tIslandChildren ≠ tTextarea from by decide, expectedAttrs, plainFlat, classBuf, styleBuf]
+    have hmk : modeOfTag tIslandChildren = .data := by decide
+    have ih := (run_vkids ks ⟨tIslandChildren, [], []⟩ (f :: fs) pos hkids hmk (by simp [headIsText])).1
+    have hclose : run ⟨.text, ⟨tIslandChildren, [], (vStructKids pos ks).reverse ++ []⟩ :: f :: fs⟩
+        ('<' :: '/' :: tIslandChildren ++ ['>']) =
+        some ⟨.text, { f with kidsRev := .elem tIslandChildren [] (vStructKids pos ks) :: f.kidsRev } :: fs⟩ := by
+      rw [run_endTag (by exact hmk) (by decide)]
+      simp [emitEnd]
+    have e : vHtml true pos (.islandChildren ks) =
+        ('<' :: tIslandChildren ++ attrsHtml [] ++ ['>']) ++
+          (vKidsHtml true pos ks ++ ('<' :: '/' :: tIslandChildren ++ ['>'])) := by
+      simp [vHtml, attrsHtml, plainPart, classBuf, styleBuf]
+    rw [e, run_append, hopen, hstart, Option.bind_some, run_append, ih, Option.bind_some, hclose]
+    simp [vStruct]
 theorem run_vkids : (ns : List VNode) → ∀ (f : Frame) (fs : List Frame) (pos : Pos),
     vwfKids ((f :: fs).map (·.tag)) ns = true → modeOfTag f.tag = .data →
-    (pos = .afterText ↔ headIsText f.kidsRev = true) →
+    (headIsText f.kidsRev = true → pos = .afterText) →
     run ⟨.text, f :: fs⟩ (vKidsHtml true pos ns) =
       some ⟨.text, { f with kidsRev := (vStructKids pos ns).reverse ++ f.kidsRev } :: fs⟩ ∧
-    (vKidsPos true pos ns = .afterText ↔ headIsText ((vStructKids pos ns).reverse ++ f.kidsRev) = true)
+    (headIsText ((vStructKids pos ns).reverse ++ f.kidsRev) = true → vKidsPos true pos ns = .afterText)
   | [], f, fs, pos, _, _, hp => by simpa [vKidsHtml, vStructKids, run, vKidsPos] using hp
   | n :: ns, f, fs, pos, hw, hm, hp => by
     simp only [vwfKids, Bool.and_eq_true] at hw
